@@ -59,6 +59,7 @@ func runC24(c *Ctx) {
 	w := c.W
 	pkg := "z/tls"
 	c24Extras(c)
+	binderTranscriptRule(c)
 	if w.Pkg(pkg) == nil {
 		c.Undecided("R-OWN", pkg, "package", "-", "not loaded")
 		return
